@@ -80,6 +80,20 @@ def read_archive(data):
     return None
 
 
+def stdlib_read(fmt, data, member):
+    """what the standard library reads from these bytes as format `fmt`; None = it raises"""
+    try:
+        if fmt == "gz":
+            return gzip.GzipFile(fileobj=io.BytesIO(data)).read()
+        if fmt == "bz2":
+            return bz2.BZ2File(io.BytesIO(data)).read()
+        if fmt == "xz":
+            return lzma.LZMAFile(io.BytesIO(data)).read()
+        return zipfile.ZipFile(io.BytesIO(data)).read(member)
+    except Exception:      # noqa
+        return None
+
+
 def ext_fmt(name):
     """independent reading of 'the suffix of the file name': text after the last dot of the last component, if that
     component has a non-dot character before that dot"""
@@ -184,6 +198,8 @@ def compress_case(ck, batch, scratch, name, fmt, fault, body, content, old, smal
                 f.write(old)
         eff = fmt if fmt is not None else ext_fmt(name)
         known = eff in FORMATS
+        if not known and old == "dir":
+            return          # the block itself could not write to a directory: nothing to learn
         out_before = listing(out)
         yielded, exc = None, None
         use_tmp = os.path.join(root, "missing") if fault == "mkTmpDir" else tmpdir
@@ -250,7 +266,7 @@ def compress_case(ck, batch, scratch, name, fmt, fault, body, content, old, smal
             tclass = "raw:" + hx(tstate)
         else:
             got = read_archive(tstate)
-            tclass = f"enc:{got[0]}:{hx(got[1])}:{hx(got[2])}" if got and got[2] == content and body == "write" else "partial"
+            tclass = f"enc:{got[0]}:{hx(got[1])}:{hx(got[2])}" if got and got[2] == content and body == "write" and exc is None else "partial"
         outcome = "ok" if exc is None else "raised"
         key = ("c", name, fmt, fault, body, len(content), old if old in (None, "dir") else "bytes", small)
         ck.case(key=key if known else None, kind=f"compress/{eff if known else 'pass'}/{fault or 'nofault'}/{body}",
@@ -303,6 +319,11 @@ def decompress_case(ck, batch, scratch, name, fault, body, arch, use_target=Fals
                 f.write(data)
         eff = ext_fmt(name)
         known = eff in FORMATS
+        if known and arch not in (None, "dir") and arch[0] == "corrupt":
+            lib = stdlib_read(eff, data, os.path.basename(os.path.splitext(name)[0]))
+            if lib is not None:       # e.g. an empty file is an empty gzip/bz2/xz stream for the standard library
+                arch = ("good", eff, os.path.basename(os.path.splitext(name)[0]), lib)
+                case["arch"] = [arch[0], arch[1], arch[2], lib.hex()]
         explicit = os.path.join(out, "explicit.tmp") if use_target else None
         out_before = listing(out)
         yielded, exc, seen = None, None, None
